@@ -24,6 +24,7 @@ A *unit template* (/verif/units/<name>.u.c) is C text with directives:
      retself   (method returning Class& through `return *this;` only: emitted as a void function)
      template-ok   (out-of-line member of a class template: the `template <class T>` prefix is stripped; the unit typedefs T)
      retref    (method returning T& to an lvalue: emitted as returning T*, `return lv;` becomes `return &(lv);`)
+     constref-byvalue   (`const T& x` parameters of scalar type are passed by value; the body must not take &x)
      sub RE => REPL | sub* RE => REPL | drop-loop-contract-ok
      contract / loop K  blocks (lines up to the next key)
   @*/
@@ -978,6 +979,8 @@ def parse_extract_block(text):
             spec['methods'].append((a.strip(), b.strip()))
         elif s == 'declonly':
             spec['decl_only'] = True
+        elif s == 'constref-byvalue':
+            spec['constref_byvalue'] = True
         elif s.startswith('fragment '):
             a_, b_ = s[9:].split(' ||| ')
             spec['fragment'] = (a_.strip(), b_.strip())
@@ -1070,6 +1073,19 @@ def do_extract(spec, cnt, exc_types, info):
     params, ntid = re.subn(r'\b([A-Za-z_]\w*)\s*<\s*([A-Za-z_]\w*)\s*>', r'\1_\2', params)
     if ntid:
         cnt.hit('R17_template_id_param', ntid)
+    if spec.get('constref_byvalue'):
+        # R18: `const T& x` with T a scalar type is passed by value (same meaning as long as the body neither takes the
+        # address of x nor aliases it -- the body is checked for `&x`); needed where call sites pass rvalues / assignment
+        # expressions, which C cannot take the address of
+        def _byval(mm):
+            cnt.hit('R18_constref_byvalue')
+            return 'const %s %s' % (mm.group(1), mm.group(2))
+        params, nbv = re.subn(r'\bconst\s+(%s)\s*&\s*(\w+)' % '|'.join(re.escape(t) for t in SCALAR_TYPES), _byval, params)
+        if nbv == 0:
+            raise ExtractionError('%s: constref-byvalue did not fire' % cname)
+        for mm in re.finditer(r'\bconst\s+(?:%s)\s+(\w+)' % '|'.join(re.escape(t) for t in SCALAR_TYPES), params):
+            if re.search(r'&\s*%s\b' % re.escape(mm.group(1)), body):
+                raise ExtractionError('%s: constref-byvalue but the body takes the address of %s' % (cname, mm.group(1)))
     cparams, refs = convert_params(rw_quals(params, dummy), cnt)
     if spec['selfparam']:
         sp = 'struct %s* self' % spec['selfparam']
